@@ -1,8 +1,17 @@
 import EV.Model.Bytes
 import EV.Model.Sha256
+import EV.Model.Secp
+import EV.Model.Block
 namespace EV.Driver
 
-abbrev Handler := List String → String
+structure Cfg where
+  sizeTxIn : Nat := 328
+  sizeTxOut : Nat := 160
+  sizeTx : Nat := 56
+
+abbrev Handler := Cfg → List String → String
+
+def Cfg.prims (c : Cfg) : Prims := Secp.prims c.sizeTxIn c.sizeTxOut c.sizeTx
 
 def chunk32 : Nat → Bytes → List Bytes
   | 0, _ => []
@@ -17,5 +26,16 @@ def resStr {α} (f : α → String) : Res α → String
 
 def midComb (l r : Bytes) : Bytes := Sha256.midstate l r
 def zero32 : Bytes := List.replicate 32 0
+
+def hashes : Hashes := { sha256d := Sha256.sha256d, comb := midComb }
+
+def withHex (s : String) (f : Bytes → String) : String :=
+  match Hex.decode s with
+  | some b => f b
+  | none => "bad-op"
+
+def optHex : Option Bytes → String
+  | some b => okHex b
+  | none => "panic"
 
 end EV.Driver
